@@ -1,8 +1,14 @@
 #!/bin/bash
-# Run once in /verif after a fresh restore, offline: build the Lean project (models, proofs,
-# property theorems, hydrv driver) and warm the Go build cache with the overlay harnesses.
+# Run once in /verif after a fresh restore, offline: build the overlay harnesses from /repo
+# (warms the Go build cache, regenerates lean/Hy/Gen), then the Lean project: driver first,
+# then every property module on its own (a proof that no longer checks must show up in that
+# property's check, not abort setup).
 set -u
 cd "$(dirname "$0")/.."
-( cd lean && lake build ) || { echo "setup: lake build failed"; exit 1; }
-python3 tools/warm.py || { echo "setup: harness build failed"; exit 1; }
+python3 tools/warm.py || echo "setup: a harness build failed (the affected checks will report it)"
+( cd lean && lake build hydrv ) || { echo "setup: lake build hydrv failed"; exit 1; }
+for f in lean/Hy/Props/*.lean; do
+  m="Hy.Props.$(basename "$f" .lean)"
+  ( cd lean && lake build "$m" ) >/dev/null 2>&1 || echo "setup: $m does not build (its check will report it)"
+done
 echo "setup: ok"
